@@ -29,6 +29,42 @@ let iv_of s =
   | [a; b] -> (n_of_int (int_of_string a), n_of_int (int_of_string b))
   | _ -> failwith ("bad interval " ^ s)
 
+(* policy tokens: x.<data> | c | d | s/e/z.<name>[.<key>~<val>~<bitmap>~<urlinfo>]* *)
+let bits_of s = if s = "-" then [] else List.init (String.length s) (fun i -> s.[i] = '1')
+let urlinfo_of s =
+  if s = "-" then None else
+  match String.split_on_char ':' s with
+  | [ok; sch; st; host] -> Some { u_ok = (ok = "1"); u_scheme = str_of_field sch; u_str = str_of_field st; u_host = (host = "1") }
+  | _ -> failwith ("bad urlinfo " ^ s)
+let hattr_of s =
+  match String.split_on_char '~' s with
+  | [k; v; bm; ui] -> { a_key = str_of_field k; a_val = str_of_field v; a_match = bits_of bm; a_url = urlinfo_of ui }
+  | _ -> failwith ("bad policy attr " ^ s)
+let htoken_of s =
+  match String.split_on_char '.' s with
+  | ["x"; d] -> { t_kind = KText; t_data = str_of_field d; t_attrs = [] }
+  | ["c"] -> { t_kind = KComment; t_data = []; t_attrs = [] }
+  | ["d"] -> { t_kind = KDoctype; t_data = []; t_attrs = [] }
+  | k :: name :: attrs when k = "s" || k = "e" || k = "z" ->
+      { t_kind = (if k = "s" then KStart else if k = "e" then KEnd else KSelf);
+        t_data = str_of_field name; t_attrs = List.map hattr_of attrs }
+  | _ -> failwith ("bad policy token " ^ s)
+let kv_of s =
+  match String.split_on_char '~' s with
+  | [k; v] -> (str_of_field k, str_of_field v)
+  | _ -> failwith ("bad kv " ^ s)
+(* every start tag of the implementation's final output, judged by the extracted spec *)
+let tags_verdict tags =
+  let rec go = function
+    | [] -> "ok"
+    | t :: rest ->
+        (match String.split_on_char '.' t with
+         | name :: attrs ->
+             if tag_inert (str_of_field name) (List.map kv_of attrs) then go rest
+             else "fail:tag-not-inert-" ^ Mlutil.unhex name
+         | [] -> go rest) in
+  go (split '|' tags)
+
 let starts_with p s = String.length s >= String.length p && String.sub s 0 (String.length p) = p
 
 let html_verdict rep =
@@ -56,13 +92,20 @@ let () =
         let verdict = if decls_ok true (toks_of retoks) then "ok" else "fail:style-declaration-off-allow-list" in
         ignore out;
         Mlutil.print_model [field_of_str m] verdict
-    | "html", [_], [f0; items; final; rep] ->
+    | "html", [_], [f0; items; final; rep; toks2; tags] ->
         let its = List.map item_of (split '|' items) in
         let m = style_tag_filter its in
+        let t2 = List.map htoken_of (split '|' toks2) in
+        let mfinal = html_model its t2 in
+        let infos = List.concat_map (fun t -> List.filter_map (fun a -> a.a_url) t.t_attrs) t2 in
         let verdict =
           if f0 = "ERR" || final = "ERR" then "fail:sanitiser-returned-error"
-          else html_verdict rep in
-        Mlutil.print_model ["S" ^ field_of_str m] verdict
+          else if not (List.for_all urlinfo_sound infos) then "fail:url-parse-result-shows-a-browser-another-scheme"
+          else if not (List.for_all otoken_inert (bm_tokens t2)) then "fail:model-emits-a-token-that-is-not-inert"
+          else match html_verdict rep with
+            | "ok" -> tags_verdict tags
+            | v -> v in
+        Mlutil.print_model ["S" ^ field_of_str m; "S" ^ field_of_str mfinal] verdict
     | "text", [t], [out; ivs] ->
         let t = str_of_field t in
         let ivs = List.map iv_of (split ',' ivs) in
@@ -72,7 +115,7 @@ let () =
           if not (matches_plain (escape_std t) ivs) then "fail:url-match-empty-or-with-line-break"
           else if text_spec t o then "ok" else "fail:text-not-fully-escaped" in
         Mlutil.print_model ["S" ^ field_of_str m] verdict
-    | "msg", [_; _], [out; same; ptext; ivs; rep] ->
+    | "msg", [_; _], [out; same; ptext; ivs; rep; tags] ->
         let t = str_of_field ptext in
         let ivs = List.map iv_of (split ',' ivs) in
         let m = text_to_html t ivs in
@@ -81,7 +124,9 @@ let () =
           if same <> "1" then "fail:ui-html-member-is-not-the-sanitised-body"
           else if not (matches_plain (escape_std t) ivs) then "fail:url-match-empty-or-with-line-break"
           else if not (text_spec t o) then "fail:text-not-fully-escaped"
-          else html_verdict rep in
+          else match html_verdict rep with
+            | "ok" -> tags_verdict tags
+            | v -> v in
         Mlutil.print_model ["S" ^ field_of_str m] verdict
     | "msg", _, ["UNPARSABLE"] -> Mlutil.print_model ["UNPARSABLE"] "ok"
     | _ -> Mlutil.print_model ["UNKNOWN-KIND"] "fail:unparsable-case")
